@@ -71,6 +71,10 @@ def for_loop_parts(loop, ps):
     return pat, it
 
 
+def rem_eq_zero_in(cond):
+    return any(rem_eq_zero(c) for c in split_and(cond))
+
+
 def increments_of(loop, lid):
     out = []
     for n, ps in F.walk(loop["body"]):
@@ -147,6 +151,37 @@ def check(fx, rep, tier):
             w,
             "the poll is not of the form `counter % interval == 0 && should_stop()`" + (f" (extra conditions: {len(others)})" if others else ""),
             sample={"rule": "R13.1", "fn": b["def"], "at": w, "shape": "counter % interval == 0 && should_stop()" if ok_shape else "other"},
+        )
+        # the poll is reached on every iteration: it is not nested under another condition and no `continue` can skip it
+        outer_if = iff
+        for anc, key in reversed(ps):
+            if anc.get("k") == "If" and key == "then" and not anc.get("exp") and any(x is iff for x, _ in F.walk(anc["then"])) and rem_eq_zero_in(anc["cond"]):
+                outer_if = anc
+        pk = T._span_key(outer_if["span"])
+        skipping = []
+        for m, mps in F.walk(loop["body"]):
+            if m.get("k") == "Continue" and not m.get("exp"):
+                inner_loop = any(a.get("k") == "Loop" for a, _ in mps)
+                if not inner_loop and T._span_key(m["span"])[1] < pk[1]:
+                    skipping.append(m)
+        conditional = False
+        seen_loop = False
+        for anc, key in ps:
+            if anc is loop:
+                seen_loop = True
+                continue
+            if not seen_loop or anc is outer_if or anc is iff:
+                continue
+            if anc.get("k") in ("If", "Match") and not anc.get("exp") and "Desugar" not in str(anc.get("source", "")) and any(x is outer_if for x, _ in F.walk(anc)):
+                if anc.get("k") == "If" and key == "cond":
+                    continue
+                conditional = True
+        rep.oblige(
+            not skipping and not conditional,
+            "R13.1",
+            f"poll-every-iteration:{key_base}",
+            w,
+            (f"a `continue` at {F.loc(skipping[0]['span'])} skips the poll: iterations that take it are never polled, so a poll falling on one is lost" if skipping else "the poll sits under another condition: iterations that do not satisfy it are never polled"),
         )
         if cadence is None:
             continue
